@@ -171,6 +171,37 @@ def bulk_scenarios(ctx):
                         how, pending, mk, rec.get('got'), rec.get('want')), case)
 
 
+def override_scenarios(ctx):
+    """autofill with explicit fee / gas_limit / storage_limit (any subset, all three included) while operations of the account are pending: what the caller
+    overrides is the price, not the counter"""
+    from ..opclient import Session, make_key
+    import itertools
+    names = ('fee', 'gas_limit', 'storage_limit')
+    for mk in ('validated', 'applied'):
+        for pending in (0, 1, 2):
+            for r in (1, 2, 3):
+                for subset in itertools.combinations(names, r):
+                    s = Session(make_key('tz1'), chain0=CHAIN0, mempool_key=mk, root_ctx=())
+                    for k_ in range(pending):
+                        s.send(s.build(1, 10 + k_))
+                    g = s.build(1, 1)
+                    kw = {k: {'fee': 5000, 'gas_limit': 20000, 'storage_limit': 300}[k] for k in subset}
+                    case = {'overrides': list(subset), 'pending': pending, 'mempool_key': mk}
+                    before = len(s.node.injections)
+                    try:
+                        s.groups[g - 1].autofill(**kw).sign().inject()
+                    except Exception as e:   # noqa
+                        if len(s.node.injections) == before:
+                            ctx.mismatch('C25:overrides:raises-%s' % type(e).__name__, 'autofill(%s) with %d pending raised %s: %s' % (', '.join(subset), pending, type(e).__name__, str(e)[:200]), case)
+                            continue
+                    rec = s.node.injections[-1]
+                    ctx.count(('overrides', mk, pending, subset), nontrivial=pending > 0)
+                    ctx.replayed += 1
+                    if rec.get('got') != rec.get('want'):
+                        ctx.mismatch('C25:overrides:wrong-counters', 'autofill(%s).inject() with %d operation(s) pending (%s): injected counters %s, the node demands %s' % (
+                            ', '.join(subset), pending, mk, rec.get('got'), rec.get('want')), case)
+
+
 def contract_call_scenarios(ctx):
     """The same histories entered through a contract interface: contract.default(..) is a call object; .as_transaction() builds a group, .autofill() on it
     is a fill that injects nothing (a cost preview), .send() fills and injects.  Each send carries the account's next counters."""
@@ -229,6 +260,7 @@ def run(ctx):
     ctx.require_coverage(r, ['ABuild', 'AFill', 'AAutofill', 'AAutofillFail', 'ASend', 'AInject', 'ABake'])
     bulk_scenarios(ctx)
     contract_call_scenarios(ctx)
+    override_scenarios(ctx)
     per_family = {}
     for st in iter_dump(r.dump):
         log, hist, f = st['log'], st['hist'], st['fam']
